@@ -772,6 +772,25 @@ def F42():
     cf = CompactFilter.parse(bytes(range(16)), data)
     return cf.serialize() != data or cf.hash() != hash256(data), "filter %s parses and serialises to %s; hash() is the filter hash: %s" % (data.hex(), cf.serialize().hex(), cf.hash() == hash256(data))
 
+def F43():
+    """target_to_bits for targets of fewer than three bytes, and retargeting down to zero"""
+    from buidl.helper import target_to_bits, calculate_new_bits
+    got = [target_to_bits(t).hex() for t in (0x12, 0x1234, 0x80)]
+    try:
+        z = calculate_new_bits(bytes.fromhex("00000101"), 1).hex()
+    except Exception as e:
+        z = type(e).__name__
+    return got != ["00001201", "00341202", "00800002"] or z != "00000000", "bits of 0x12, 0x1234, 0x80 -> %s (GetCompact: 00001201 00341202 00800002); retarget of target 1 at the quarter clamp -> %s" % (got, z)
+
+def F44():
+    """header without work whose bits carry the compact sign bit / overflow"""
+    from buidl.block import Block
+    res = []
+    for bits in ("ffffff20", "ffff0022", "00008003"):
+        b = Block(1, bytes(32), bytes(32), 0, bytes.fromhex(bits), bytes(4))
+        res.append(b.check_pow())
+    return any(res), "check_pow of a header without work and bits ffffff20 / ffff0022 / 00008003 -> %s (consensus: negative / overflow / negative, never valid)" % res
+
 def K1():
     from buidl.op import op_2rot
     st = [b"1", b"2", b"3", b"4", b"5", b"6"]
